@@ -131,6 +131,17 @@ class Driver:
             st.sym[BODY] = (0, 1 << 62)
             models.set_fpos(st, 'out', binop('+', po, sym(BODY), st.sym) if po != TOP else TOP)
             st.comps['pipe_out_from'] = po
+            # the I/O loop's own state (fields of the group object it writes): value at entry, unknown afterwards
+            A_ = getattr(D, 'A', None)
+            if A_ is not None:
+                inst = st.mem.get(('G:%s::instance' % A_.Gq, ()))
+                snap = {}
+                if inst is not None and inst[0] == 'p':
+                    for fld in D.io_state_fields():
+                        k = (inst[1], inst[2] + (fld,))
+                        snap[fld] = show(I.load(st, k))
+                        st.mem[k] = TOP
+                st.comps['pipe_entry'] = st.comps.get('pipe_entry', ()) + (tuple(sorted(snap.items())),)
             if getattr(D, 'A', None) is not None and D.A.live:
                 # R04.c (proved on the pipeline side): the loop exits only with the live counter at 0
                 st.mem[(D.A.live, ())] = C(0)
@@ -176,7 +187,44 @@ class Driver:
         self.pipe_model = m_pipeline
         return mdl
 
-    def build(self, T, fin_null=False, no_echo=None, seed_given=True):
+    def io_state_fields(self):
+        """Non-pointer fields of the group class written by the I/O entry or what it calls (its loop state), except those the
+        entry itself assigns before its first loop or call."""
+        if hasattr(self, '_iosf'):
+            return self._iosf
+        prog, A = self.prog, self.A
+        seen, todo = set(), [A.io['id']]
+        while todo:
+            fid = todo.pop()
+            if fid in seen or fid not in prog.functions:
+                continue
+            seen.add(fid)
+            for n in walk(prog.functions[fid]['body']):
+                if n['k'] in ('CXXMemberCallExpr', 'CallExpr') and n.get('callee', {}).get('rec') == A.Gq and n['callee'].get('m'):
+                    todo.append(n['callee']['m'])
+        gf = {f['d'][2:]: f for f in A.G['fields'] if prog.type(f['t']).get('k') in ('int', 'bool', 'enum')}
+        written = set()
+        for fid in seen:
+            for n in walk(prog.functions[fid]['body']):
+                tgt = None
+                if n['k'] in ('BinaryOperator', 'CompoundAssignOperator') and (n.get('op') == '=' or n['k'] == 'CompoundAssignOperator'):
+                    tgt = strip(n['lhs'])
+                elif n['k'] == 'UnaryOperator' and n.get('op') in ('++', '--'):
+                    tgt = strip(n['e'])
+                if tgt is not None and tgt.get('k') == 'MemberExpr' and tgt.get('d', '')[2:] in gf:
+                    written.add(tgt['d'][2:])
+        reset = set()
+        body = prog.functions[A.io['id']]['body']
+        for stt in (body.get('c') or body.get('body') or []):
+            x = strip(stt) if isinstance(stt, dict) else None
+            if x and x['k'] == 'BinaryOperator' and x.get('op') == '=' and strip(x['lhs']).get('k') == 'MemberExpr':
+                reset.add(strip(x['lhs'])['d'][2:])
+            else:
+                break
+        self._iosf = sorted(written - reset)
+        return self._iosf
+
+    def build(self, T, fin_null=False, no_echo=None, seed_given=True, base=None):
         """Run the real constructor on symbolic arguments; returns (interp, states)."""
         prog = self.prog
         mdl = self.make_models()
@@ -213,12 +261,19 @@ class Driver:
             log(st2, 'STREAM', k, tuple(args), ivf, keyf, nloc(n))
             return [(st2, P(('stream', k), ()))]
         mdl2[self.factory['q']] = m_factory
-        st = interp.State()
-        st.comps['log'] = ()
-        st.comps['lockset'] = frozenset()
-        st.mem[('G:%s::instance' % A.Gq, ())] = NULL
-        if A.live:
-            st.mem[(A.live, ())] = C(0)
+        if base is not None:
+            # a second operation in the same process: globals, statics and the heap are what the first one left
+            st = base.copy()
+            st.comps = {k: v for k, v in st.comps.items() if k == 'lockset'}
+            st.comps['log'] = ()
+            st.trace = ()
+        else:
+            st = interp.State()
+            st.comps['log'] = ()
+            st.comps['lockset'] = frozenset()
+            st.mem[('G:%s::instance' % A.Gq, ())] = NULL
+            if A.live:
+                st.mem[(A.live, ())] = C(0)
         models.set_fpos(st, 'fin', C(0))
         models.set_fpos(st, 'out', C(0))
         # Settings object
@@ -281,6 +336,18 @@ class Driver:
             self.rec.broke('unmodelled construct in driver analysis (%s, T=%d): %s at %s' % (op, T, what, where))
         self.results[key] = (I, out)
         return self.results[key]
+
+    def run_second(self, op, T, base):
+        """op on a freshly constructed runner, in the process state `base` left by an earlier operation."""
+        I, states = self.build(T, base=base)
+        f = self.ops[op]
+        out = []
+        for s in states:
+            s.sym['$fsize'] = (0, 1 << 62)
+            args = [sym('$fsize') if p['n'] == 'fsize' else (P(RBUF, (0,)) if p['n'] == 'r_buf' else TOP) for p in f['params']]
+            out += I.run(f, s, this=P(RC, ()), args=args)
+        self.rec.saw(I)
+        return I, out
 
     def thread_counts(self, tier):
         return list(range(1, self.tmax + 1))
